@@ -3,7 +3,7 @@ import itertools
 from common import *
 
 RULE = ("all binding patterns (local/global/weak) of 0-5 symbols (quick) or 0-8 symbols (thorough) exhaustively, plus random tables of "
-        "up to 60 symbols with REL/RELA tables of up to 40 entries whose swap callback is forwarded (entry size of the relocation table = the entry structure, or larger by 4-16 bytes), in all 4 configurations; symbols "
+        "up to 60 symbols with REL/RELA tables of up to 40 entries whose swap callback is forwarded (entry size of the relocation table = the entry structure, or larger by 4-16 bytes), in all 4 configurations, a third of the tables arranged only after the object has been saved once; symbols "
         "carry distinct values so that content identity can be checked. Non-trivial = at least one non-local symbol precedes a local "
         "one (so at least one swap happens).")
 ASSUMPTIONS = ["the table has a null symbol first (as every table built through add_symbol has)", "symbol indices below 2^24 in ELF32 relocations"]
@@ -26,7 +26,7 @@ def meta_from_lines(lines):
     return {"syms": syms, "rels": rels, "cfg": cfg, "fwd": fwd}
 
 
-def mk_case(cid, cfg, binds, rels, rela, forward, rpad=0):
+def mk_case(cid, cfg, binds, rels, rela, forward, rpad=0, saved_first=False):
     """[rpad]: the relocation table's entry size exceeds the entry structure by that many bytes (filler after each entry)"""
     c32 = cfg[0] == "32"
     es = 16 if c32 else 24
@@ -42,6 +42,8 @@ def mk_case(cid, cfg, binds, rels, rela, forward, rpad=0):
         lines.append("reladd 4 %d %d %d 1 5" % (1 if rela else 0, 4 * r, r))
         if rpad:
             lines.append("dapp 4 " + hx(b"\xee" * rpad))
+    if saved_first:
+        lines.append("save")          # the writer object is saved (sections get their file offsets), then arranged
     lines.append("arrange 3 %s" % ("4" if forward else "65535"))
     n = len(binds) + (1 if binds else 0)
     lines.append("symnum 3")
@@ -113,7 +115,7 @@ def generate(rng, tier):
         for pat in itertools.product([0, 1, 2], repeat=n):
             cfg = CFGS[k % 4]
             rels = [rng.randint(0, n) for _ in range(min(n + 1, 4))] if n else []
-            cases.append(mk_case("e%d" % k, cfg, list(pat), rels, k % 2 == 1, True, rpad=(0, 0, 8)[k % 3]))
+            cases.append(mk_case("e%d" % k, cfg, list(pat), rels, k % 2 == 1, True, rpad=(0, 0, 8)[k % 3], saved_first=(k % 5 == 4)))
             k += 1
     nr = 150 if tier == "quick" else 1500
     for i in range(nr):
@@ -121,7 +123,7 @@ def generate(rng, tier):
         n = rng.randint(1, 60)
         binds = [rng.choice([0, 0, 1, 2]) for _ in range(n)]
         rels = [rng.randint(0, n) for _ in range(rng.randint(0, 40))]
-        cases.append(mk_case("r%d" % i, cfg, binds, rels, i % 2 == 0, rng.random() < 0.85, rpad=rng.choice([0, 0, 4, 8, 8, 16])))
+        cases.append(mk_case("r%d" % i, cfg, binds, rels, i % 2 == 0, rng.random() < 0.85, rpad=rng.choice([0, 0, 4, 8, 8, 16]), saved_first=(i % 3 == 2)))
     return cases
 
 
